@@ -26,7 +26,15 @@ EXPLANATION = (
     "operator (identity of and / or). C02.foldarms: every evaluator arm folds its result into the accumulator with the current "
     "node's operator. C02.equality: equalities are compared with ==, inequalities with !=, all of them, conjoined. C02.range: the "
     "quantifier range is a subtype test. C02.passthrough: Operator.is_applicable grounds first and returns the grounded "
-    "precondition's answer for (state, problem objects) un-negated. C02.keyerror: an evaluation failure yields False."
+    "precondition's answer for (state, problem objects) un-negated. C02.keyerror: an evaluation failure yields False; at every place where "
+    "a numeric condition is evaluated the tree that is loaded from the state and the tree that is evaluated is the operand's own root. "
+    "Completeness clauses (mutation campaign): C02.translate also demands that no class of the supported fragment is refused "
+    "(arm-rejects), that no operand class ends the loop over the operands (walk-stops) and that every class test has the operand as "
+    "its first argument (dispatch-test; also C02.foldarms for the evaluator); C02.equality judges EVERY pair built from an "
+    "(in)equality set (root and nested conditions); C02.groundall: the parameter map the quantified evaluation reads from the object "
+    "is stored when a quantified operand is met (or always), and a nested and / or re-enters the translation with the operand, a fresh "
+    "Precondition carrying the operand's operator and the map of the call. C02.branch (= C12.branch): a comparison root takes the "
+    "comparing branch of evaluate_expression."
 )
 UNDECIDED = ("truth of arbitrary formulas in arbitrary states (the fold over run-time operand sets); collisions of the substring-based "
              "membership test on the serialised state; numeric evaluation beyond C12")
@@ -152,11 +160,16 @@ class ClassDispatch:
         self.repo, self.f, self.p, self.loop = repo, f, p, loop
         elem = {x + ("elem",) for x in p.trace(loop.iter)}
         self.tests: Dict[int, List[str]] = {}
+        self.malformed: List[ast.Call] = []      # isinstance(<class>, <operand>): the operand stands where the class belongs
         for n in ast.walk(loop):
             if isinstance(n, ast.Call) and isinstance(n.func, ast.Name) and n.func.id == "isinstance" and len(n.args) == 2:
                 try:
                     tr = p.trace(n.args[0])
                 except KeyError:
+                    continue
+                tr1 = _safe_trace(p, n.args[1])
+                if tr1 and tr1 <= elem and not (tr and tr <= elem):
+                    self.malformed.append(n)
                     continue
                 if tr and tr <= elem:
                     cs = _classes_of(repo, f, n.args[1])
@@ -186,6 +199,17 @@ class ClassDispatch:
 
 def _inner_loops(loop: ast.For) -> List[ast.For]:
     return [n for n in ast.walk(loop) if isinstance(n, ast.For) and n is not loop]
+
+
+def _dispatch_wellformed(r: RuleResult, rid: str, f: FuncInfo, D: "ClassDispatch", tag: str = "", latent: bool = False) -> None:
+    """a dispatch on the class of the operand asks `isinstance(<operand>, <class>)`: with the operand in the place of the class the test
+    raises TypeError for every operand that gets as far as this test (all classes that are not accepted by an earlier arm)"""
+    if D.malformed:
+        c = D.malformed[0]
+        r.fail(Finding(rid, f, f"{tag}dispatch-test:operand-as-class", f"the class test {unparse(c, 70)} has the operand where the class belongs: it raises "
+                       f"TypeError for every operand that reaches it", node=c, latent=latent))
+    else:
+        r.ok({"function": f.qn, "class_tests": len(D.tests), "operand_is_first_argument": True})
 
 
 def rule_translate(repo: Repo, rid: str = "C02.translate") -> RuleResult:
@@ -233,15 +257,29 @@ def rule_translate(repo: Repo, rid: str = "C02.translate") -> RuleResult:
                         if to_out and from_operand:
                             attach = True
             sample = {"function": f.qn, "class": cls, "attached": attach, "rejected": reject}
-            if attach or reject:
+            if attach:
                 r.ok(sample)
+            elif reject:
+                # every class of MODEL_CLASSES is part of the supported fragment: an operand of that class must take part in the
+                # instantiated precondition, refusing it makes every action that contains one unusable
+                r.fail(Finding(rid, f, f"{tag}arm-rejects:{cls}", f"an operand of class {cls} (a condition of the supported fragment) is never attached to the "
+                               f"grounded condition: the dispatch raises for it", node=loop, latent=latent), sample)
             elif D.matches_any(cls):
                 r.fail(Finding(rid, f, f"{tag}arm:{cls}", f"an operand of class {cls} is handled by the dispatch but no translated condition is attached to the "
                                f"grounded condition (no add_condition on the output) and nothing is raised: the condition is ignored", node=loop, latent=latent), sample)
             else:
                 r.fail(Finding(rid, f, f"{tag}arm:else:{cls}", f"an operand of class {cls} matches no arm and there is no rejecting else: it is silently left out "
                                f"of the grounded condition", node=loop, latent=latent), sample)
-    r.require_sites(8)
+        # completeness of the walk: whatever the class of an operand, handling it cannot end the translation of the remaining operands
+        r.site(f"{f.qn} [{tag}every operand is visited]")
+        stops = [cls for cls in MODEL_CLASSES if L.leaves_loop_early(D.G, D.valuation(cls), loop)]
+        if stops:
+            r.fail(Finding(rid, f, f"{tag}walk-stops:{stops[0]}", f"after an operand of class {', '.join(stops)} the loop over the operands is left (break / return): the "
+                           f"operands that follow it are missing from the grounded condition", node=loop, latent=latent))
+        else:
+            r.ok({"function": f.qn, "walk": "no operand class ends the loop over the operands"})
+        _dispatch_wellformed(r, rid, f, D, tag, latent)
+    r.require_sites(10)
     return r
 
 
@@ -629,6 +667,14 @@ def rule_foldarms(repo: Repo) -> RuleResult:
         r.ok({"else": "raise"})
     else:
         r.fail(Finding("C02.foldarms", f, "else-not-rejecting", "an operand of an unknown class is skipped silently by the evaluator"))
+    # the class tests of every evaluation loop (compound and quantified) are asked of the operand
+    r.site(f"{f.qn} [class tests]")
+    bad_tests = [(lp, D_) for lp, _a, _f, _c in loops for D_ in [D if lp is loop else ClassDispatch(repo, f, p, lp)] if D_.malformed]
+    if bad_tests:
+        _dispatch_wellformed(r, "C02.foldarms", f, bad_tests[0][1], "" if bad_tests[0][0] is loop else "forall-",
+                             latent=bad_tests[0][0] is not loop and _forall_dead(repo, f, p, loops))
+    else:
+        _dispatch_wellformed(r, "C02.foldarms", f, D)
     # result is the accumulator
     r.site(f"{f.qn} [result]")
     rets = L.func_returns(f)
@@ -665,8 +711,10 @@ def rule_equality(repo: Repo) -> RuleResult:
     atoms: Dict[int, str] = {}
     wrong = []
     for c in L.calls_in(f.node):
-        if callee_name(c) in ("all", "any") and len(c.args) == 1 and isinstance(c.args[0], (ast.ListComp, ast.GeneratorExp, ast.SetComp)):
-            comp = c.args[0]
+        if callee_name(c) in ("all", "any") and len(c.args) == 1:
+            comp = _single_origin(p, g, c.args[0])        # `checks = [a == b for ..]; all(checks)`
+            if not isinstance(comp, (ast.ListComp, ast.GeneratorExp, ast.SetComp)):
+                continue
             pc = _pair_compare(p, comp.elt)
             if pc is None:
                 continue
@@ -716,6 +764,7 @@ def rule_equality(repo: Repo) -> RuleResult:
     r.site(k.qn + " [pair grounding]")
     okf = {}
     filtered: list = []
+    misgrounded: list = []
     for n in ast.walk(k.node):
         if isinstance(n, ast.Tuple) and len(n.elts) == 2 and isinstance(n.ctx, ast.Load):
             try:
@@ -725,12 +774,15 @@ def rule_equality(repo: Repo) -> RuleResult:
             for fld in ("equality_preconditions", "inequality_preconditions"):
                 via0 = any(x[0] == "param:parameters_map" and "item" in x and "askey" not in x for x in t0)
                 via1 = any(x[0] == "param:parameters_map" and "item" in x and "askey" not in x for x in t1)
-                k0 = {x[-2] for x in t0 if "askey" in x and f"attr:{fld}" in x and len(x) > 2 and x[-1] == "askey" and x[-2].startswith("unpack:")}
-                k1 = {x[-2] for x in t1 if "askey" in x and f"attr:{fld}" in x and len(x) > 2 and x[-1] == "askey" and x[-2].startswith("unpack:")}
-                if via0 and via1 and k0 == {"unpack:0"} and k1 == {"unpack:1"}:
+                # the component of the pair that is looked up: by unpacking (`a, b = pair`) or by index (`pair[0]`)
+                k0 = {x[-2].split(":", 1)[1] for x in t0 if "askey" in x and f"attr:{fld}" in x and len(x) > 2 and x[-1] == "askey" and x[-2].startswith(("unpack:", "item:"))}
+                k1 = {x[-2].split(":", 1)[1] for x in t1 if "askey" in x and f"attr:{fld}" in x and len(x) > 2 and x[-1] == "askey" and x[-2].startswith(("unpack:", "item:"))}
+                if via0 and via1 and k0 == {"0"} and k1 == {"1"}:
                     okf[fld] = True
-                    # every pair must be grounded: no filter on the way
-                    pass
+                elif any(f"attr:{fld}" in x and len(x) > x.index(f"attr:{fld}") + 1 for x in t0 | t1):
+                    # a pair built from the elements of this pair set (root or nested condition, each copy of a shared helper) in any
+                    # other way: wrong component order, or the pair set and the parameter map in each other's place
+                    misgrounded.append((fld, n))
     # every pair must be grounded: no test on the pairs (or their grounded images) may decide whether one is kept
     for fld in ("equality_preconditions", "inequality_preconditions"):
         tests = [(t, n) for n in ast.walk(k.node) if isinstance(n, (ast.SetComp, ast.ListComp, ast.GeneratorExp, ast.DictComp)) for g_ in n.generators for t in g_.ifs]
@@ -750,12 +802,32 @@ def rule_equality(repo: Repo) -> RuleResult:
     if filtered:
         r.fail(Finding("C02.equality", k, "pair-filtered", f"some (in)equality pairs are dropped while grounding ({unparse(filtered[0][1], 70)}): a constraint such as "
                        f"(not (= ?x ?y)) called with the same object twice disappears", node=filtered[0][1]))
+    elif misgrounded:
+        r.fail(Finding("C02.equality", k, "pair-grounding", f"{unparse(misgrounded[0][1], 70)}: a pair taken from {misgrounded[0][0]} is not grounded as "
+                       f"(map[first], map[second]) (recognised elsewhere for {sorted(okf)})", node=misgrounded[0][1]))
     elif okf.get("equality_preconditions") and okf.get("inequality_preconditions"):
         r.ok({"grounding": "(map[a], map[b]) for (a, b) in pairs"})
     else:
         r.fail(Finding("C02.equality", k, "pair-grounding", f"(in)equality pairs are not grounded component-wise in order (recognised for {sorted(okf)})"))
     r.require_sites(3)
     return r
+
+
+def _single_origin(p, g, e: ast.AST, depth: int = 0) -> ast.AST:
+    """the expression a plain local name stands for when exactly one plain assignment reaches its use (copies followed)"""
+    if not isinstance(e, ast.Name) or depth > 4:
+        return e
+    try:
+        at = p.node_of(e)
+    except KeyError:
+        return e
+    defs = [d for d in p.rd.defs_reaching(at, e.id)]
+    if len(defs) != 1 or defs[0] == g.entry:
+        return e
+    st = g.stmt[defs[0]]
+    if isinstance(st, ast.Assign) and len(st.targets) == 1 and isinstance(st.targets[0], ast.Name) or (isinstance(st, ast.AnnAssign) and st.value is not None):
+        return _single_origin(p, g, st.value, depth + 1)
+    return e
 
 
 def _as_bool(v):
@@ -769,11 +841,12 @@ def rule_passthrough(repo: Repo) -> RuleResult:
     p = L.prov(repo, f)
     g = C.cfg_of(f.node)
     r.site(f.qn + " [result]")
-    rets = L.func_returns(f)
+    # what is returned is judged by its origins (`answer = <call>; return answer` returns the call)
+    rets = [(ret, v) for ret, origins in L.returned_exprs(f) for v in (origins or [None])]
     ok = bool(rets)
-    for ret in rets:
-        v = ret.value
-        if not (isinstance(v, ast.Call) and callee_name(v) == "is_applicable" and any(x == ("self", "attr:grounded_preconditions") for x in p.trace(v.func.value))):
+    for ret, v in rets:
+        if not (isinstance(v, ast.Call) and callee_name(v) == "is_applicable" and isinstance(v.func, ast.Attribute)
+                and any(x == ("self", "attr:grounded_preconditions") for x in _safe_trace(p, v.func.value))):
             ok = False
             continue
         gp = repo.func("GroundedPrecondition.is_applicable")
@@ -871,8 +944,104 @@ def rule_groundall(repo: Repo) -> RuleResult:
         r.ok({"_ground": "(lifted root, grounded root, parameters_map)"})
     else:
         r.fail(Finding("C02.groundall", f, "ground-arguments", "the operands of the lifted root are not translated into the grounded root with the given parameter map"))
-    r.require_sites(4)
+    _forall_map_stored(repo, r, f, p, g, loops)
+    _nested_translation(repo, r, f, p, g, loops)
+    r.require_sites(6)
     return r
+
+
+def _forall_map_stored(repo: Repo, r: RuleResult, f: FuncInfo, p, g, loops: List[ast.For]) -> None:
+    """the quantified evaluation instantiates the body of a forall with a map that it reads from the object (self.<X> extended by the
+    quantified variable): grounding must have stored the map of THIS call there -- on every path, or at the latest when it meets a
+    quantified operand"""
+    h = L.fn(repo, EVAL)
+    ph = L.prov(repo, h)
+    r.site(f"{f.qn} [map of the call kept for the quantified evaluation]")
+    read: Set[str] = set()
+    for c in L.calls_in(h.node):
+        if callee_name(c) in ("ground_predicate", "ground_numeric_calculation_tree") and len(c.args) > 1:
+            read |= {x[1][len("attr:"):] for x in _safe_trace(ph, c.args[1]) if len(x) >= 2 and x[0] == "self" and x[1].startswith("attr:")}
+    if f.cls is None:
+        raise AnalysisError(f"{f.qn}: not a method")
+    # attributes that are given their value elsewhere (constructor, another method) are not this function's duty
+    elsewhere = set()
+    for m in repo.all_funcs():
+        if m.cls == f.cls and m.mod is f.mod and m.name != f.name and not (m.name.startswith("_") and not m.name.startswith("__")):
+            for n in ast.walk(m.node):
+                if isinstance(n, (ast.Assign, ast.AnnAssign, ast.AugAssign)):
+                    for t in (n.targets if isinstance(n, ast.Assign) else [n.target]):
+                        if isinstance(t, ast.Attribute) and isinstance(t.value, ast.Name) and t.value.id == m.self_name and not (isinstance(n, ast.AnnAssign) and n.value is None):
+                            elsewhere.add(t.attr)
+    read -= elsewhere
+    if not read:
+        r.ok({"quantified_evaluation_reads": "no map stored by grounding"})
+        return
+    exits = [n for n, _ in g.pred[g.exit]]
+    dom = C.dominators(g)
+    for attr in sorted(read):
+        stores = []
+        for n in g.nodes():
+            st = g.stmt[n]
+            if isinstance(st, (ast.Assign, ast.AnnAssign)) and st.value is not None:
+                for t in (st.targets if isinstance(st, ast.Assign) else [st.target]):
+                    if isinstance(t, ast.Attribute) and t.attr == attr and _safe_trace(p, t.value) == {("self",)}:
+                        tr = _safe_trace(p, st.value)
+                        if tr and any(x[0] == "param:parameters_map" for x in tr) and all(x[0] == "param:parameters_map" or x[0].startswith("fresh:") for x in tr):
+                            stores.append(n)
+        always = bool(stores) and bool(exits) and all(dom[e] & set(stores) for e in exits)
+        at_forall = bool(stores) and bool(loops)
+        for lp in loops:
+            D = ClassDispatch(repo, f, p, lp)
+            # (decided as reachability under the class valuation: tests the valuation leaves open must not turn into an alarm)
+            at_forall = at_forall and bool(D.reach("UniversalPrecondition") & set(stores))
+        if always or at_forall:
+            r.ok({"stored": f"self.{attr} = parameters_map", "when": "always" if always else "at a quantified operand"})
+        else:
+            r.fail(Finding("C02.groundall", f, "forall-map-not-stored", f"the quantified evaluation reads self.{attr}, but grounding an action whose precondition contains a "
+                           f"forall does not store the parameter map of the call there: the body of the forall is instantiated with no / another call's arguments"))
+
+
+def _nested_translation(repo: Repo, r: RuleResult, f: FuncInfo, p, g, loops: List[ast.For]) -> None:
+    """a nested and / or is translated by re-entering the translation: with the nested operand as source, a FRESH condition node that
+    carries the operand's own operator as target, and the parameter map of the call"""
+    r.site(f"{f.qn} [nested condition: source, fresh target, map]")
+    checked = 0
+    for lp in loops:
+        D = ClassDispatch(repo, f, p, lp)
+        elem = {x + ("elem",) for x in p.trace(lp.iter)}
+        seen = D.reach("Precondition")
+        under = D.under("Precondition")
+        for n in seen:
+            hdr = C.header(g.stmt[n]) if g.stmt[n] is not None else None
+            if hdr is None:
+                continue
+            for c in L.calls_in(hdr):
+                _cat, tg = repo.resolve_call(f, c)
+                if not any(t is not None and t.cls == f.cls and t.mod is f.mod for _k, t, _c in tg):
+                    continue
+                args = list(c.args) + [kw.value for kw in c.keywords if kw.arg]
+                trs = []
+                for a in args:
+                    try:
+                        trs.append(p.trace(a, under=under))
+                    except KeyError:
+                        trs.append(set())
+                if not any(tr and tr <= elem for tr in trs):
+                    continue
+                checked += 1
+                fresh = [tr for tr in trs if any(x[0] == "fresh:Precondition" for x in tr)]
+                with_op = [tr for tr in fresh if any(any(x[:len(e) + 1] == e + ("attr:binary_operator",) for e in elem) and x[-1].endswith(":Precondition") for x in tr)]
+                with_map = [tr for tr in trs if tr and all(x == ("param:parameters_map",) for x in tr)]
+                undefined = [unparse(a) for a, tr in zip(args, trs) if not tr]
+                if with_op and with_map and not undefined:
+                    r.ok({"nested": unparse(c, 80)})
+                else:
+                    what = ("an argument has no value on this path" if undefined else "no fresh Precondition as target" if not fresh else
+                            "the target does not carry the nested operand's operator" if not with_op else "not the parameter map of the call")
+                    r.fail(Finding("C02.groundall", f, "nested-translation", f"{unparse(c, 70)}: a nested and / or is not translated into a fresh condition node with its own "
+                                   f"operator under the map of the call ({what})", node=c))
+    if not checked:
+        r.ok({"nested": "no recursive translation of nested conditions"})
 
 
 def rule_keyerror(repo: Repo) -> RuleResult:
@@ -904,9 +1073,12 @@ def rule_keyerror(repo: Repo) -> RuleResult:
     r.site(f.qn + " [environment]")
     sv = [c for c in L.calls_in(f.node) if callee_name(c) == "set_expression_value"]
     is_root = lambda tr: any(len(x) >= 3 and x[-1] == "attr:root" and x[-2] == "elem" and x[-3] == "attr:operands" for x in tr)
-    ok = any(any(x == ("param:state", "attr:state_fluents") for x in p.trace(c.args[1])) and is_root(p.trace(c.args[0])) for c in sv if len(c.args) > 1)
-    ev = [c for c in L.calls_in(f.node) if callee_name(c) == "evaluate_expression"]
-    ok = ok and any(is_root(p.trace(c.args[0])) for c in ev if c.args)
+    # at EVERY place where a numeric condition is evaluated (compound and quantified evaluation, each copy of a shared helper): the tree that
+    # is loaded with the state's fluents and the tree that is evaluated are the root of the operand itself
+    sv2 = [c for c in sv if len(c.args) > 1]
+    ok = bool(sv2) and all(any(x == ("param:state", "attr:state_fluents") for x in p.trace(c.args[1])) and is_root(p.trace(c.args[0])) for c in sv2)
+    ev = [c for c in L.calls_in(f.node) if callee_name(c) == "evaluate_expression" and c.args]
+    ok = ok and bool(ev) and all(is_root(p.trace(c.args[0])) for c in ev)
     if ok:
         r.ok({"evaluated_on": "state.state_fluents"})
     else:
@@ -921,7 +1093,9 @@ def rules(repo: Repo, tier: str) -> List[RuleResult]:
             c06.rule_conform(repo, "C02.conform", only_funcs=(EVAL,), floor=0),
             rule_passthrough(repo), rule_groundall(repo), rule_keyerror(repo),
             # the numeric conditions are evaluated on the values of THIS state: the walk that copies them into the tree reaches every leaf
-            c12.rule_leaf(repo).as_rule("C02.readstate"), c12.rule_missing(repo, "C02.missing")] + _grounding_rules(repo)
+            c12.rule_leaf(repo).as_rule("C02.readstate"), c12.rule_missing(repo, "C02.missing"),
+            # a numeric condition is a COMPARISON: its root operator takes the comparing branch of evaluate_expression (both operands calculated)
+            c12.rule_branch(repo, "C02.branch")] + _grounding_rules(repo)
 
 
 def _grounding_rules(repo: Repo) -> List[RuleResult]:
